@@ -362,7 +362,7 @@ func quantiserCanOverflow(k C12Case, src []int, steps []float64) bool {
 }
 
 func runC12(c *Ctx) {
-	c.R.Rule = "irreversible 9/7 single-tile, no rate target: sizes 1..24 (quick) / 1..96 (thorough) with the per-sample bound computed from the QCD step sizes of the emitted stream through an independent float64 inverse 9/7 (exact absolute impulse-response sums, separable per band); comps {1,3}; P {8,12,16}; signed; quality 1..100; levels 0..6; a class of flat range-end images at P 12..16 with quality 85..100; code-blocks 16/32/64; one case in ten on an Encoder object already used at another quality; allowance max(2, 2^(P-13)) (+3 for colour); non-trivial = non-constant content"
+	c.R.Rule = "irreversible 9/7 single-tile, no rate target: sizes 1..24 (quick) / 1..96 (thorough) with the per-sample bound computed from the QCD step sizes of the emitted stream through an independent float64 inverse 9/7 (exact absolute impulse-response sums, separable per band); comps {1,2,3,4} (the colour transform applies to exactly 3); P {8,12,16}; signed; quality 1..100; levels 0..6; a class of flat range-end images at P 12..16 with quality 85..100; code-blocks 16/32/64; one case in ten on an Encoder object already used at another quality; allowance max(2, 2^(P-13)) (+3 for colour); non-trivial = non-constant content"
 	n := c.N(400, 5000)
 	rng := c.Rng.Fork()
 	cases := make([]C12Case, n)
@@ -376,7 +376,7 @@ func runC12(c *Ctx) {
 		if rng.Intn(5) == 0 {
 			k.W, k.H = rng.Range(1, 6), rng.Range(1, 6)
 		}
-		k.Comps = rng.Pick(1, 1, 3)
+		k.Comps = rng.Pick(1, 1, 3, 3, 2, 4)
 		k.P = rng.Pick(8, 8, 12, 16)
 		k.Signed = rng.Intn(3) == 0
 		k.Levels = rng.Range(0, 6)
